@@ -46,6 +46,7 @@ Field instance:
 
 """
 import logging
+from copy import copy
 from typing import Callable, Optional
 
 from .typeutils import (
@@ -158,6 +159,10 @@ class MetaStruct(type):
         for aname, field in data.items():
             if hasattr(field, "_inspect_args"):
                 data[aname] = Field(field)
+            elif isinstance(field, Field) and field.index is not None:
+                # taken from the field table of another class, which keeps
+                # its own index and offset
+                data[aname] = copy(field)
         for aname, field in data.items():
             if isinstance(field, Field):
                 field.index = findex
